@@ -278,3 +278,19 @@ pub fn gen_event_cfg(rng: &mut Rng) -> OutCfg {
     }
     cfg
 }
+
+/// the cancellation fault: now and then a request arrives in two pieces (cut inside the link header, right after it, or
+/// anywhere) with a wake-up of the outstation task in between
+pub fn sprinkle_splits(rng: &mut Rng, script: &mut Vec<Op>) {
+    if !rng.chance(1, 3) {
+        return;
+    }
+    let mut out = Vec::with_capacity(script.len() + 4);
+    for op in script.drain(..) {
+        if matches!(op, Op::Request { .. }) && rng.chance(1, 5) {
+            out.push(Op::SplitNext(*rng.pick(&[1usize, 2, 3, 9, 10, 11, 12, 17, 26, 27, 28, 40])));
+        }
+        out.push(op);
+    }
+    *script = out;
+}
